@@ -231,6 +231,7 @@ pub fn run(ctx: &Ctx) -> Report {
     rep.run_stage("history", history_case, ctx.cases(3000, 120_000), check_history);
     let corpus = corpus_cases(ctx);
     rep.run_enum("corpus", &corpus, check_corpus);
+    super::scale::run(&mut rep, ctx, "C02");
     rep
 }
 
@@ -265,6 +266,9 @@ pub fn corpus_cases(ctx: &Ctx) -> Vec<CorpusCase> {
 
 pub fn replay(stage: &str, case: &Value) -> Check {
     let mut st = Stats::new();
+    if stage == "scale" {
+        return super::scale::replay(case);
+    }
     match stage {
         "ast" | "tall" => check_case(&serde_json::from_value(case.clone()).map_err(|e| Fail::new("harness-replay", e.to_string()))?, &mut st),
         "history" => check_history(&serde_json::from_value(case.clone()).map_err(|e| Fail::new("harness-replay", e.to_string()))?, &mut st),
